@@ -476,7 +476,9 @@ def x_rand(p):
         # the assignment table, obtained through the public call only (every well of the plate, one by one and at once)
         allw = [wid(rr, cc) for rr in range(sh[0]) for cc in range(sh[1])]
         tab1 = [[_parse_wid(w), _parse_wid(str(v))] for w, v in zip(allw, np.asarray(r1.randomize_wells(allw)).flatten())]
-        tab2 = [[_parse_wid(w), _parse_wid(str(r2.randomize_wells(w)))] for w in allw]
+        # (the second randomizer is asked well by well and in the opposite order: the assignment depends on the seed alone,
+        #  not on when or in which order it is looked at)
+        tab2 = [[_parse_wid(w), _parse_wid(str(r2.randomize_wells(w)))] for w in reversed(allw)]
         if p.get("scribble"):
             try:
                 whole = np.array([[wid(rr, cc) for cc in range(sh[1])] for rr in range(sh[0])])
